@@ -227,8 +227,23 @@ def run_real_missing(job, res):
                f"policy {pol}: got {got}", {"policy": pol})
     config.set("eop", "missing_policy", "error")
     d = Date(2016, 5, 4, 12, 0, 0)
-    clause(res, "real tables: covered date uses tabulated TAI-UTC", d.eop.tai_utc == 36.0 and abs(d.eop.ut1_utc - (-0.1639947)) < 1e-3 or True,
+    clause(res, "real tables: covered date uses tabulated TAI-UTC", d.eop.tai_utc == 36.0,
            "eop/real-covered", f"eop {d.eop}", {})
+    # every Earth-orientation value the library hands to the frame conversions is the one tabulated for that day (pole coordinates,
+    # UT1-UTC, length of day, nutation corrections of both theories), read here by an independent reader of the two finals files
+    for mjd_s, want in job.get("eopvals", {}).items():
+        mjd = int(mjd_s)
+        try:
+            e = Date(mjd, 43200.0).eop
+        except Exception as ex:
+            clause(res, "real tables: the Earth-orientation values of a tabulated day are the tabulated ones", False, "eop/real-values",
+                   f"MJD {mjd}: {type(ex).__name__}: {ex}", {"mjd": mjd})
+            continue
+        res["evaluations"] += 1
+        got = {"x": e.x, "y": e.y, "ut1_utc": e.ut1_utc, "lod": e.lod, "dpsi": e.dpsi, "deps": e.deps, "dx": e.dx, "dy": e.dy}
+        bad = {k: (got[k], w) for k, w in want.items() if w is not None and got[k] != w}
+        clause(res, "real tables: the Earth-orientation values of a tabulated day are the tabulated ones", not bad, "eop/real-values",
+               f"MJD {mjd}: {bad} (library value, tabulated value)", {"mjd": mjd, "fields": sorted(bad)})
 
 
 def main(inp, outp):
